@@ -415,8 +415,8 @@ Inductive op :=
 | OBeh (k : kind) (b : behav)       (* extend the behaviour table *)
 | OConn (slot : nat)
 | OReq (slot : nat) (accepted : bool)   (* accepted: the kernel took the datagram / notification byte (oracle) *)
-| OHup (slot : nat)                 (* client disconnects or dies: same thing for the server *)
-| OTurn (c : nat)
+| OHup (slot : nat) (empty : bool)  (* client disconnects or dies; empty: the kernel purged / holds no queued request (oracle) *)
+| OTurn (c : nat) (empty : bool)    (* empty: the kernel holds no queued request for c (oracle, socket transport) *)
 | OJobs
 | OApp (a : action).
 
@@ -453,13 +453,15 @@ Section Top.
                   if accepted && c_alloc x && st_eqb (c_st x) ESTABLISHED && negb (c_fc x =? 1)
                   then Ok (put c (w_nreq (c_nreq x + 1) x) w) 1 else Ok w 0
       end
-    | OHup slot =>
+    | OHup slot empty =>
       match (if Nat.ltb slot maxslots then slots w slot else None) with
       | None => Ok w (-1000)
       | Some c => let x := conns w c in
-                  Ok (set_slots (updf (slots w) slot None) (put c (w_hup true x) w)) 0
+                  let x1 := if empty then w_nreq 0 x else x in
+                  Ok (set_slots (updf (slots w) slot None) (put c (w_hup true x1) w)) 0
       end
-    | OTurn c =>
+    | OTurn c empty =>
+      let w := if empty && negb shm then put c (w_nreq 0 (conns w c)) w else w in
       let x := conns w c in
       if Nat.ltb c (next w) && c_reg x then
         if shm then
